@@ -104,6 +104,8 @@ func main() {
 	switch os.Args[1] {
 	case "l1":
 		cmdL1(os.Args[2:])
+	case "l1c":
+		cmdL1c(os.Args[2:])
 	case "l2":
 		cmdL2(os.Args[2:])
 	case "idgen":
